@@ -76,6 +76,7 @@ var scenarioWish = map[string]Wish{
 	"reads":                {MinNodes: 2, Async: 30, Tiny: 0, Spare: 0},
 	"crash-points":         {MinNodes: 3, MaxNodes: 3, Async: 50, Tiny: 0, Spare: 0},
 	"flow":                 {MinNodes: 2, MaxNodes: 3, Async: 30, Tiny: 100, Spare: 0},
+	"big-joint":            {MinNodes: 8, MaxNodes: 9, Async: 30, Tiny: 0, Spare: 0, Learners: 3},
 }
 
 func runOne(seed int64, prof Profile, steps, stabilize, tr int, sum *RunSummary, scen string) ([]string, *Cluster) {
